@@ -26,9 +26,6 @@ Grow ==
   /\ \E x \in Alphabet : s' = Append(s, x)
   /\ UNCHANGED <<target, k, cs>>
 
-SimFns == NullaryFns \cup PatternFns \cup LawFns \cup {"substring", "substring", "substring", "replace"}
-SimKinds == {"lit", "lit", "env"} \cup StrKinds
-
 (* the pattern drawn: the substring s[i..j], as it is (m = 0), with one     *)
 (* symbol changed (m = 1) or with one symbol appended (m = 2)               *)
 DrawnPattern(i, j, m, q) ==
@@ -50,7 +47,7 @@ Emit ==
   /\ Len(s) = target /\ k < PerString
   /\ \E f \in {RandomElement(NullaryFns \cup PatternFns \cup LawFns \cup {"substring", "replace"})} :
      \E f2 \in {IF RandomElement(1..4) = 1 THEN "substring" ELSE f} :       \* substring is drawn more often
-     \E rk0 \in {RandomElement(StrKinds)} :
+     \E rk0 \in {RandomElement(StrKinds \ {"elGender"})} :
      \E rk \in {IF f2 \in LawFns /\ rk0 \notin {"lit", "env"} THEN "lit" ELSE IF RandomElement(1..3) = 1 THEN rk0 ELSE "lit"} :
      \E i \in {RandomElement(1..(Len(s) + 1))} :
      \E j \in {RandomElement(0..Len(s))} :
